@@ -79,7 +79,8 @@ CHECKS["C20"] = dict(
     technique="TLA+ defining equations of proximity order and XOR distance on bit strings; TLC checks their mutual consistency on a "
               "small universe, enumerates the inputs, and evaluates the equations on the arguments/results the Go functions logged",
     level_text="pure functions: TLC enumerates first-difference positions 0..40 and 'no difference' x 4 base patterns x equal/inverted tail "
-               "(both caps, both argument orders), all 4096 triples of 2-byte addresses over {00,01,80,ff}, and seeded 32-byte pairs/triples; "
+               "(both caps, both argument orders), all 4096 triples of 2-byte addresses over {00,01,80,ff}, seeded 32-byte pairs/triples, and the ordering "
+               "class 'candidates share exactly k leading bits' for every k in 0..48 and 100, 200, 255 x target inside/outside the prefix/on a candidate; "
                "Proximity, ExtendedProximity, DistanceCmp, Address.Closer and Distance are judged by OverlayTrace.tla",
     level_note="exploration, not model checking: there is no state machine; TLC is enumerator and oracle. Addresses shorter than 5 bytes "
                "and unequal lengths are outside the statement. Trusted: TLC, the driver's logging of arguments and results.",
@@ -92,7 +93,8 @@ CHECKS["C20"] = dict(
     corrupt=corrupt_field("cmp", "c", lambda e: 1 if e["c"] != 1 else -1),
     nontrivial=_c20_nontrivial,
     rule="one call per scenario: (base pattern, tail) x 42 first-difference positions; every (target, x, y) triple of 2-byte addresses over "
-         "a 4-byte alphabet; per repetition 27 seeded 32-byte proximity pairs + 9 seeded 32-byte distance triples; distinct = distinct "
+         "a 4-byte alphabet; per repetition 27 seeded 32-byte proximity pairs + 9 seeded 32-byte distance triples + 156 ordering triples whose "
+         "candidates share exactly k leading bits (k = 0..48, 100, 200, 255; target inside / outside the shared prefix / on a candidate); distinct = distinct "
          "(arguments | repetition, position); non-trivial = the two compared addresses differ",
     exhaustive=dict(quick=False, thorough=False),
     assumptions=["addresses have equal length >= 5 bytes for proximity (the functions inspect 4 / 5 bytes)",
